@@ -129,6 +129,11 @@ class StmtMixin:
         elif isinstance(target, ast.Attribute):
             base = self.eval(target.value)
             fld = isinstance(base, ZV) and R.field_for(base_tag(base.tag), target.attr)
+            if not fld and isinstance(base, ZV) and (base_tag(base.tag) in R.TAG_CLASS or base_tag(base.tag) in R.INLINE_CTORS.values()):
+                # an attribute the theory does not know (typically added by an edit): a new mutable field of that object family, untyped
+                R.add_field({base_tag(base.tag)}, target.attr, None, "%s.%s" % (base_tag(base.tag), target.attr))
+                self.dropped.add("attribute %s.%s is not in the theory: treated as a new mutable field" % (base_tag(base.tag), target.attr))
+                fld = R.field_for(base_tag(base.tag), target.attr)
             if fld:
                 arr = self.heap_array(fld[0])
                 st.heap[fld[0]] = z3.Store(arr, base.term, as_v(v))
